@@ -1429,6 +1429,43 @@ func (f *e1func) transfer(st *fstate, n ast.Node, sites *[]*e1site) []*fstate {
 		for _, l := range s.Lhs {
 			lhs = append(lhs, f.lhsTerm(l))
 		}
+		// x, y, ok = f(x): inside the call, x names the value *before* the assignment.  Spell the call with that old value
+		// (the variable's definition, or an opaque "old x") and re-key what the state knows about the call, so that the
+		// outcome of an interpreted helper survives the rebinding of its own argument.
+		if len(rhs) == 1 && len(lhs) > 1 && (rhs[0].K == "call" || rhs[0].K == "mcall") {
+			oldCall := rhs[0]
+			for _, lt := range lhs {
+				if lt == nil || lt.K != "var" || lt.Obj == nil || !mentions(oldCall, lt.Obj, nil) {
+					continue
+				}
+				var oldVal *Term
+				if d := f.defOf(st, lt); d != nil && !mentions(d.A[1], lt.Obj, nil) {
+					if len(d.A) == 3 {
+						oldVal = mk("res", d.A[2].S, d.A[1])
+					} else {
+						oldVal = d.A[1]
+					}
+				}
+				if oldVal == nil {
+					oldVal = mk("const", fmt.Sprintf("%s·old@%d", lt.S, f.eng.c.P.Fset.Position(s.Pos()).Line))
+				}
+				if nt := replaceTerm(oldCall, lt.Key(), oldVal); nt != nil {
+					oldCall = nt
+				}
+			}
+			if oldCall != rhs[0] {
+				fromKey := rhs[0].Key()
+				n := st.clone()
+				for k, fc := range st.facts {
+					if nf := replaceTerm(fc, fromKey, oldCall); nf != nil && nf.Key() != k {
+						n.facts[nf.Key()] = nf
+					}
+				}
+				n.key = ""
+				st = n
+				rhs[0] = oldCall
+			}
+		}
 		// the outcome of an interpreted helper call is known before the assignment; if an argument variable is itself
 		// reassigned by it (x, err := f(x)) the call term goes stale, so the outcome is carried over to the status variable
 		var carried []*Term
